@@ -139,6 +139,16 @@ def main() -> int:
     n_before = len(cases)
     cases = [c for c in cases if not (set(shapes.tags(c["routines"])) & STRUCT)]
     rep.extra["skipped_c02_finding_shapes"] = n_before - len(cases)
+    # forward `call @label` in compiler-shaped programs is decompiled correctly (the listed call finding concerns backward calls and calls
+    # into jump chains): a few such programs stay in, so that the `call` statement's entry is looked at
+    for src in ["def 0 { a(); call @l; b(); return; @l; c(); return; }", "def 0 { a(); if ($V == 1) { call @l; } b(); end; @l; c(); return; }",
+                "def 0 { x(); return; }\ndef 1 for actor A { a('line one\\nline two'); call @m; b(); call @m; hold; @m; c(); return; }",
+                "def 0 { switch ($S) { case 1: call @l; break; default: d(); } e(); end; @l; f(); return; }"]:
+        cc = drive.compile_text(src)
+        if cc["status"] != "ok":
+            raise common.MachineryError("call program rejected: " + cc["err"])
+        rs_ = gen_flow.renumber(cc["ops"])
+        cases.append({"routines": rs_, "infos": cc["infos"], "origin": "call-forward"})
     recs = []
     for c, r in zip(cases, pmap(exps_case, cases, limit=10.0)):
         if r.get("_error"):
